@@ -71,10 +71,10 @@ def normal_form_defects(red) -> list[str]:
     return out
 
 
-def one_case(ctx: Ctx, stream: str, i: int, ctx_len: int) -> None:
+def one_case(ctx: Ctx, stream: str, i: int, ctx_len: int, force_pattern=None) -> None:
     from furax._base.core import CompositionOperator
     rng = ctx.rng(stream, i)
-    s = gen.random_structure(rng)
+    s = gen.random_structure(rng) if force_pattern is None else gen.structure_for_pattern(rng, force_pattern)
     npat = rng.choice([1, 1, 2, 3])
     ops: list = []
     planted: list[str] = []
@@ -86,7 +86,7 @@ def one_case(ctx: Ctx, stream: str, i: int, ctx_len: int) -> None:
             ops.append(o)
             cur = o.out_structure()
         for _ in range(20):
-            pat = rng.choice(gen.PATTERNS)
+            pat = force_pattern if (force_pattern is not None and k == 0) else rng.choice(gen.PATTERNS)
             got = pat(rng, cur)
             if got is not None:
                 ops.extend(got)
@@ -142,8 +142,12 @@ def one_case(ctx: Ctx, stream: str, i: int, ctx_len: int) -> None:
 
 
 def run(ctx: Ctx) -> None:
-    n = 300 if ctx.tier == 'quick' else 6000
+    n = 200 if ctx.tier == 'quick' else 4000
     ctx_len = 3 if ctx.tier == 'quick' else 5
     for i in range(n):
         if ctx.want('pattern', i):
             one_case(ctx, 'pattern', i, ctx_len)
+    per = 8 if ctx.tier == 'quick' else 150
+    for i in range(per * len(gen.PATTERNS)):
+        if ctx.want('each', i):
+            one_case(ctx, 'each', i, ctx_len, force_pattern=gen.PATTERNS[i % len(gen.PATTERNS)])
